@@ -7,6 +7,8 @@ pub mod c03;
 pub mod c04;
 pub mod c04gen;
 pub mod c05;
+pub mod c06;
+pub mod c06paths;
 pub mod c07;
 pub mod c08;
 pub mod c08model;
@@ -29,7 +31,7 @@ pub mod c20;
 pub mod numref;
 
 pub fn all() -> Vec<&'static dyn Property> {
-    vec![&c01::C01, &c02::C02, &c03::C03, &c04::C04, &c05::C05, &c07::C07, &c08::C08, &c09::C09, &c10::C10, &c11::C11, &c12::C12, &c13::C13, &c14::C14, &c15::C15, &c16::C16, &c17::C17, &c18::C18, &c19::C19, &c20::C20]
+    vec![&c01::C01, &c02::C02, &c03::C03, &c04::C04, &c05::C05, &c06::C06, &c07::C07, &c08::C08, &c09::C09, &c10::C10, &c11::C11, &c12::C12, &c13::C13, &c14::C14, &c15::C15, &c16::C16, &c17::C17, &c18::C18, &c19::C19, &c20::C20]
 }
 
 pub fn lookup(id: &str) -> Option<&'static dyn Property> {
